@@ -30,6 +30,16 @@ def c02_programs(rng, n):
     # echo
     out.append(prog([("u1", [("remote_exec", "c", 1), ("send", "c", 101), ("send", "c", 102), ("receive_all", "c")])],
                     {1: [("receive", "channel"), ("send", "channel", 201), ("receive", "channel"), ("send", "channel", 202)]}))
+    # remote_status() while other threads open channels and send: its temporary channel is a conversation of its own
+    out.append(prog([("u1", [("status",), ("status",)]), ("u2", [("remote_exec", "c", 1), ("receive_all", "c")]),
+                     ("u3", [("remote_exec", "d", 2), ("send", "d", 111), ("receive_all", "d")])],
+                    {1: [("send", "channel", 201), ("send", "channel", 202)], 2: [("receive", "channel"), ("send", "channel", 211)]}))
+    # a big frame from one thread, small frames (items and a close) from others, at the same time
+    out.append(prog([("u1", [("remote_exec", "a", 1), ("sendbig", "a", 101), ("sendbig", "a", 102), ("receive_all", "a")]),
+                     ("u2", [("remote_exec", "b", 2), ("send", "b", 111), ("send", "b", 112), ("send", "b", 113), ("receive_all", "b")]),
+                     ("u3", [("remote_exec", "k", 3), ("close", "k")])],
+                    {1: [("receive", "channel"), ("receive", "channel"), ("send", "channel", 201)],
+                     2: [("receive", "channel"), ("receive", "channel"), ("receive", "channel"), ("send", "channel", 211)], 3: [("waitclose", "channel")]}))
     # two receivers on one channel
     out.append(prog([("u1", [("remote_exec", "c", 1), ("receive_all", "c")]), ("u2", [("await", "c"), ("receive_all", "c")])],
                     {1: [("send", "channel", 201), ("send", "channel", 202), ("send", "channel", 203)]}))
@@ -113,6 +123,15 @@ def c03_programs(rng, n):
         out.append(prog([("u1", [("remote_exec", "c", 1), ("receive_all", "c")] + _after("c", 150)),
                          ("u2", [("await", "c"), ("receive_all", "c")] + _after("c", 151)),
                          ("u3", [("await", "c"), ("waitclose", "c")] + _after("c", 152))], {1: body}))
+    # a big item is on its way while another thread closes the same channel / another channel: every item sent before the close arrives
+    out.append(prog([("u1", [("remote_exec", "c", 1), ("sendbig", "c", 101), ("sendbig", "c", 102), ("open_gate", "sent")]),
+                     ("u2", [("remote_exec", "d", 2), ("send", "d", 111), ("close", "d")]),
+                     ("u3", [("await", "c"), ("wait_gate", "sent"), ("close", "c")])],
+                    {1: [("receive_all", "channel")], 2: [("receive_all", "channel")]}))
+    # MultiChannel.make_receive_queue on members that the peer has already closed, with items still queued: items first, then the end
+    out.append(prog([("u1", [("remote_exec", "a", 1), ("remote_exec", "b", 2), ("waitclose", "a"), ("waitclose", "b"),
+                             ("mc_queue", ["a", "b"], True, "q"), ("mc_drain", "q")])],
+                    {1: [("send", "channel", 201), ("send", "channel", 202)], 2: [("send", "channel", 211)]}))
     # the initiator closes explicitly after k sends; the body receives everything then probes
     for k in (0, 2):
         out.append(prog([("u1", [("remote_exec", "c", 1)] + [("send", "c", 101 + i) for i in range(k)] + [("close", "c")] + _after("c", 150)),
@@ -265,6 +284,10 @@ def c10_programs(rng, n):
                     {1: [("send", "channel", 201), ("wait_gate", "go"), ("raise",)], 2: [("send", "channel", 221)]}))
     out.append(prog([("u1", [("remote_exec", "c", 1), ("setcallback", "c", True), ("drop", "c"), ("remote_exec", "e", 2), ("receive_all", "e"), ("sleep", 3)])],
                     {1: [("send", "channel", 201), ("raise",)], 2: [("send", "channel", 221)]}))
+    # Channel.reconfigure() from another thread while the callback channel is being closed by the peer: still exactly one endmarker
+    out.append(prog([("u1", [("remote_exec", "c", 1), ("setcallback", "c", True), ("open_gate", "cb"), ("waitclose", "c"), ("exit",), ("join",)]),
+                     ("u2", [("wait_gate", "cb"), ("reconfigure", "c", False, True), ("reconfigure", "c", True, False)])],
+                    {1: [("send", "channel", 201), ("wait_gate", "cb"), ("send", "channel", 202)]}))
     # a callback that closes its own channel when it gets the endmarker, while the channel is only half closed ("sendonly": the peer dropped
     # its end but kept a callback): the endmarker is delivered once, not again by the re-entrant close
     out.append(prog([("u1", [("remote_exec", "c", 1), ("recvchan", "c", "x"), ("setcallback", "x", False), ("drop", "x"), ("sleep", 2), ("send", "c", 1), ("waitclose", "c")])],
